@@ -56,6 +56,9 @@ pub struct Flat {
     skipped: u32,
     #[command(flatten)]
     limits: Box<Limits>,
+    /// a scalar field whose argument can hold several values: the field is the first of them
+    #[arg(long, value_delimiter = ',')]
+    firstof: Option<String>,
 }
 
 /// A flattened group behind a `Box`, with a required member.
@@ -301,6 +304,7 @@ impl Mirror for Flat {
             ("skipped".into(), format!("{:?}", self.skipped)),
             ("limits.lmin".into(), format!("{:?}", self.limits.lmin)),
             ("limits.cap".into(), format!("{:?}", self.limits.cap)),
+            ("firstof".into(), format!("{:?}", self.firstof)),
         ]
     }
     fn defaulted_paths() -> &'static [&'static str] {
@@ -322,6 +326,7 @@ impl Mirror for Flat {
             pos: one::<String>(m, "pos")?,
             skipped: 0,
             limits: Box::new(Limits { lmin: one::<u8>(m, "lmin")?, cap: one::<u8>(m, "cap")?.ok_or("cap missing")? }),
+            firstof: one::<String>(m, "firstof")?,
         })
     }
 }
@@ -352,6 +357,7 @@ fn gen_flat(rng: &mut Rng) -> Flat {
         pos: if rng.coin() { Some(pick_str(rng)) } else { None },
         skipped: 0,
         limits: Box::new(Limits { lmin: if rng.coin() { Some(rng.below(256) as u8) } else { None }, cap: rng.below(256) as u8 }),
+        firstof: if rng.coin() { Some(pick_str(rng).replace(',', "_")) } else { None },
     }
 }
 
@@ -380,6 +386,13 @@ fn flat_tokens(v: &Flat, which: &dyn Fn(&str) -> bool) -> (Vec<String>, Vec<(Str
         a.push("--req".into());
         a.push(v.req.clone());
         name("req", format!("{:?}", v.req));
+    }
+    if which("firstof") {
+        if let Some(f) = &v.firstof {
+            // two delimited values: the scalar field takes the first
+            a.push(format!("--firstof={f},zz-second"));
+            name("firstof", format!("{:?}", v.firstof));
+        }
     }
     if which("cap") {
         a.push(format!("--cap={}", v.limits.cap));
@@ -994,7 +1007,7 @@ fn gen_ops<T: Mirror>(rng: &mut Rng, ty: u8) -> (Vec<String>, Vec<DOp>) {
                 Box::new(|rng: &mut Rng| {
                     let v = gen_flat(rng);
                     let mask = rng.next_u64();
-                    let names = ["flag", "verbose", "req", "opt", "optopt", "many", "optmany", "num", "list", "mode", "dmode", "pos", "cap", "lmin"];
+                    let names = ["flag", "verbose", "req", "opt", "optopt", "many", "optmany", "num", "list", "mode", "dmode", "pos", "cap", "lmin", "firstof"];
                     flat_tokens(&v, &move |n: &str| names.iter().position(|x| *x == n).map(|i| mask >> i & 1 == 1).unwrap_or(false))
                 }),
                 Box::new(|rng: &mut Rng| {
